@@ -679,8 +679,12 @@ func Child(r *ev.Run, args []string) {
 		}
 	})
 	defer verifhook.Set(nil)
-	n := r.N(200, 8000)
-	for i := 0; i < n; i++ {
+	lo, hi := 0, r.N(200, 4000)
+	if len(args) >= 3 {
+		lo, _ = strconv.Atoi(args[1])
+		hi, _ = strconv.Atoi(args[2])
+	}
+	for i := lo; i < hi; i++ {
 		if !concHistory(r, fmt.Sprintf("c12/conc/%d", i), i, &hits) {
 			break // a hung history leaks blocked goroutines; stop here
 		}
@@ -694,7 +698,7 @@ func Run(r *ev.Run) {
 	r.Rule = "sequential: case i = f(seed,i): Size in {1,2,7,64,4096,default} x 5-60 operations (Write with lengths 0, 1, exactly the free space, free+1, size-1, size, size+1, 3*size; Sync; harness-driven tick; Stop incl. repeated, Write-after-Stop, Sync/Stop before the first Write) with stream/alignment/held-back/flushed-and-synced invariants evaluated after every operation; concurrent (race build): 2-8 goroutines mixing Write (unique records), Sync, Stop and harness ticks, records parsed back out of the sink; crash: for each history a child process is killed (SIGKILL to self) at every client-operation and sink-event boundary and the parent judges the file; distinct = distinct histories / (history, boundary)"
 	t0 := time.Now()
 	hung := 0
-	n := r.N(2500, 150000)
+	n := r.N(2500, 60000)
 	for i := 0; i < n; i++ {
 		id := fmt.Sprintf("c12/seq/%d", i)
 		if !r.Want(id) {
@@ -721,10 +725,32 @@ func Run(r *ev.Run) {
 	if r.Only == "" {
 		t1 := time.Now()
 		defer func() { r.Extra("seconds_concurrent_and_crash", time.Since(t1).Seconds()) }()
-		o := mon.ChildOpts{Race: true, Prop: "C12", Args: []string{"conc"}, Timeout: 25 * time.Minute, CrashIsViolation: true}
-		oc := mon.RunChild(r, o)
+		// concurrent histories: batches in parallel race-build children
+		total, batch := r.N(240, 4000), r.N(60, 250)
+		type job struct{ lo, hi int }
+		jobs := make(chan job)
+		var wg sync.WaitGroup
+		for p := 0; p < 4; p++ {
+			wg.Add(1)
+			go func() {
+				defer wg.Done()
+				for j := range jobs {
+					o := mon.ChildOpts{Race: true, Prop: "C12", Args: []string{"conc", fmt.Sprint(j.lo), fmt.Sprint(j.hi)}, Timeout: 25 * time.Minute, CrashIsViolation: true, Env: []string{"GOMAXPROCS=8"}}
+					oc := mon.RunChild(r, o)
+					mon.Judge(r, o, oc, fmt.Sprintf("c12/conc-batch/%d-%d", j.lo, j.hi))
+				}
+			}()
+		}
+		for lo := 0; lo < total; lo += batch {
+			hi := lo + batch
+			if hi > total {
+				hi = total
+			}
+			jobs <- job{lo, hi}
+		}
+		close(jobs)
+		wg.Wait()
 		r.Extra("seconds_concurrent", time.Since(t1).Seconds())
-		mon.Judge(r, o, oc, "c12/conc")
 		if r.Violations() == 0 && (r.Counter("hook_hits:bws.loop.tick_received") == 0 || r.Counter("hook_hits:bws.stop.signalled") == 0) {
 			r.Incomplete("a perturbation point of the buffered syncer was never reached")
 		}
